@@ -17,6 +17,22 @@ class Ctx:
         self._flow = None
         self.deferred = []      # AnalysisErrors of single rules: reported after the other rules had their say
 
+    @property
+    def ref(self):
+        """The same model built on the reference tree (/verif/reference: the sources on which the rule instances were
+        confirmed), or None.  A rule may ask it what the confirmed instance looked like - e.g. under which conditions a loop
+        accumulated - and report what the tree under analysis adds to that; it never replaces the analysis of the current tree."""
+        if not hasattr(self, "_ref"):
+            import os
+            from . import unrename
+            self._ref = None
+            if os.path.isdir(os.path.join(unrename.REFERENCE, "shexer")) and os.path.realpath(unrename.REFERENCE) != os.path.realpath(self.p.repo):
+                try:
+                    self._ref = Ctx(unrename.REFERENCE)
+                except AnalysisError:
+                    self._ref = None
+        return self._ref
+
     def attempt(self, fn, *args, default=None, **kw):
         """Run one rule; a vanished anchor breaks that rule only.  The run still ends as analysis-broken
         (exit 2) unless another rule found a violation, which is reported first (exit 1)."""
